@@ -1,6 +1,8 @@
 """C11 — replaying the recorded tick log reproduces the live run state."""
 from __future__ import annotations
 
+import asyncio
+
 from workflows.runtime.control_loop import rebuild_state_from_ticks
 
 from worlds.engine import drive_resume, drive_standard, uid_of
@@ -18,7 +20,7 @@ RULE_TEXT = ("Generated workflows (fan-out, queues, retries incl. delay-based st
 COMPONENTS = {"real": ["workflows.* engine: live reducer vs. rebuild_state_from_ticks, BasicRuntime tick log"],
               "stub": ["llama_index_instrumentation"], "sim": ["loop, clock"]}
 ASSUMPTIONS = ["the comparison is between two computations the code defines as equal; no reference model is involved"]
-EXPECTED_PROBES = ["retry-in-state", "queue-in-state", "collected-in-state", "waiter-in-state", "resumed-run"]
+EXPECTED_PROBES = ["end-of-run-compared", "retry-in-state", "queue-in-state", "collected-in-state", "waiter-in-state", "resumed-run"]
 LEVEL_TEXT = ("Seeded exploration; differential oracle live-state vs replayed-state after every tick of every run; this is what "
               "ctx.to_dict() and running_steps() are computed from.")
 LEVEL_NOTE = "Trusted: simulator loop; access to the live runner through the runner registry (subclass of _ControlLoopRunner, no behaviour change)."
@@ -93,6 +95,30 @@ def setup(world, spec):
                         break
     world.after_tick_hooks.append(after_tick)
 
+    def at_exit(runner):
+        # the run's control loop is leaving: whatever it applied to its state must be in the journal (a tick that ended the run
+        # by raising is applied too)
+        rid = runner.adapter.run_id
+        if rid in world.dead_runs or world._c11["reported"]:
+            return
+        import sys
+        if isinstance(sys.exc_info()[1], (asyncio.CancelledError, GeneratorExit)):
+            return          # aborted from outside (hard cancel): nothing was being applied
+        inner = runner.adapter._decorated
+        try:
+            ticks = list(inner.replay())
+            rebuilt = rebuild_state_from_ticks(inner.init_state, ticks)
+        except Exception:  # noqa: BLE001
+            return
+        a, b = _abs(runner.state), _abs(rebuilt)
+        world._c11["end_compared"] = True
+        if a != b:
+            key = next(k for k in a if a[k] != b.get(k))
+            world._c11["reported"].add("end:" + key)
+            world.violate("C11.diverge", f"at the end of the run ({len(ticks)} journaled ticks) {key}: live={a[key]} replayed={b.get(key)}",
+                          tick="end-of-run", failed_attempt=False, delay_based_stop=False)
+    world.runner_exit_hooks.append(at_exit)
+
 
 def scenario(world, spec):
     if world.tape.draw(4, "resume?") == 0:
@@ -105,6 +131,8 @@ def check(world, spec, outcome) -> None:
     c = world._c11
     for f in c["flags"]:
         world.probe(f)
+    if c.get("end_compared"):
+        world.probe("end-of-run-compared")
     world._nt = c["ticks"] >= 10 and bool(c["flags"])
     world._evals = c["ticks"]
 
